@@ -2368,9 +2368,11 @@ class quantized_relu(base_quantizer.BaseQuantizer):  # pylint: disable=invalid-n
                                               ) else self.integer))
 
     flags = [str(self.bits), integer_bits]
-    if self.use_sigmoid or self.use_stochastic_rounding:
+    # Positional arguments: print every argument up to the last non-default one.
+    if (self.use_sigmoid or self.negative_slope or
+        self.use_stochastic_rounding):
       flags.append(str(int(self.use_sigmoid)))
-    if self.negative_slope:
+    if self.negative_slope or self.use_stochastic_rounding:
       flags.append(str(self.negative_slope))
     if self.use_stochastic_rounding:
       flags.append(str(int(self.use_stochastic_rounding)))
@@ -2607,9 +2609,10 @@ class quantized_tanh(base_quantizer.BaseQuantizer):  # pylint: disable=invalid-n
 
   def __str__(self):
     flags = [str(self.bits)]
-    if self.use_stochastic_rounding:
+    # Positional arguments: print every argument up to the last non-default one.
+    if self.use_stochastic_rounding or self.symmetric or self.use_real_tanh:
       flags.append(str(int(self.use_stochastic_rounding)))
-    if self.symmetric:
+    if self.symmetric or self.use_real_tanh:
       flags.append(str(int(self.symmetric)))
     if self.use_real_tanh:
       flags.append(str(int(self.use_real_tanh)))
@@ -2673,9 +2676,11 @@ class quantized_sigmoid(base_quantizer.BaseQuantizer):  # pylint: disable=invali
 
   def __str__(self):
     flags = [str(self.bits)]
-    if self.symmetric:
+    # Positional arguments: print every argument up to the last non-default one.
+    if (self.symmetric or self.use_real_sigmoid or
+        self.use_stochastic_rounding):
       flags.append(str(int(self.symmetric)))
-    if self.use_real_sigmoid:
+    if self.use_real_sigmoid or self.use_stochastic_rounding:
       flags.append(str(int(self.use_real_sigmoid)))
     if self.use_stochastic_rounding:
       flags.append(str(int(self.use_stochastic_rounding)))
@@ -3037,9 +3042,11 @@ class quantized_relu_po2(base_quantizer.BaseQuantizer):  # pylint: disable=inval
 
   def __str__(self):
     flags = [str(self.bits)]
-    if self.max_value is not None or self.use_stochastic_rounding:
+    # Positional arguments: print every argument up to the last non-default one.
+    if (self.max_value is not None or self.negative_slope or
+        self.use_stochastic_rounding):
       flags.append(str(self.max_value))
-    if self.negative_slope:
+    if self.negative_slope or self.use_stochastic_rounding:
       flags.append(str(self.negative_slope))
     if self.use_stochastic_rounding:
       flags.append(str(int(self.use_stochastic_rounding)))
